@@ -175,11 +175,22 @@ GammaResult in_gamma(const AbsVal &inv, const Sigma &s, const GammaOpts &o, Gamm
       lin_cst_t probes[3] = {lin_cst_t(x - (v - number_t(1)), lin_cst_t::INEQUALITY), // x <= v-1
                              lin_cst_t((v + number_t(1)) - x, lin_cst_t::INEQUALITY), // x >= v+1
                              lin_cst_t(x - v, lin_cst_t::DISEQUATION)};               // x != v
+      if (o.bv) {
+        // x <= v-1 / x >= v+1 would need a constant outside the signed range
+        auto ty = p.first.get_type();
+        unsigned w = ty.is_integer() ? ty.get_integer_bitwidth() : 0;
+        if (w < 2)
+          continue;
+        mpz_class half;
+        mpz_ui_pow_ui(half.get_mpz_t(), 2, w - 1);
+        if (p.second - 1 < -half || p.second + 1 >= half)
+          continue;
+      }
       for (auto &c : probes)
         if (inv.entails(c))
           return fail("entails", "claims to entail " + cst_str(c) + " which is false in " +
                                      s.str());
-      if (k + 1 < s.ints.size()) {
+      if (k + 1 < s.ints.size() && !o.bv) {
         auto &q = s.ints[k + 1];
         lin_exp_t y(q.first);
         number_t d = to_num(p.second - q.second);
